@@ -39,7 +39,7 @@ P_THRESHOLD = 1e-9
 def FLOORS(tier):
     q = tier == "quick"
     return {"det:in-process": 400 if q else 15000, "det:fresh-process": 400 if q else 15000,
-            "det:without-initial_state": 150, "T0:reference-sweeps": 150 if q else 6000, "T0:flips-seen": 300,
+            "det:without-initial_state": 150, "T0:reference-sweeps": 150 if q else 6000, "T0:flips-seen": 300, "T0:schedule-container:generator": 20,
             "chi2:tests": 40 if q else 1500, "chi2:random-order": 12, "chi2:in-order": 12, "chi2:cubic": 8,
             "chi2:boolean-front-end": 8, "hook-dE-checks": 10 ** 6 if q else 5 * 10 ** 7, "hook:big-workloads": 8}
 
@@ -197,7 +197,12 @@ def case_t0(ctx, rng, idx):
     spin = tn in ("QUSOMatrix", "PUSOMatrix")
     n = rng.randint(1, 7)
     terms = generic_model(rng, tn, n)
-    M = getattr(L, tn)(terms)
+    items = list(terms.items())
+    rng.shuffle(items)                      # labels need not first appear in increasing order
+    terms = dict(items)
+    M = getattr(L, tn)()
+    for k_, v_ in items:
+        M[k_] += v_
     p = ref.from_raw("spin" if spin else "bool", terms)
     dom = (1, -1) if spin else (0, 1)
     init = {i: rng.choice(dom) for i in range(n)}
@@ -205,7 +210,18 @@ def case_t0(ctx, rng, idx):
     in_order = rng.random() < 0.7
     kw = dict(schedule=[0] * k, initial_state=dict(init), in_order=in_order, num_anneals=rng.choice([1, 3]),
               seed=rng.choice([None, 3]))
-    w = {"function": fn, "type": tn, "terms": terms, "kwargs": kw}
+    w = {"function": fn, "type": tn, "terms": terms, "kwargs": dict(kw)}
+    cont = rng.choice(["list", "list", "tuple", "generator", "iter", "ndarray"])
+    w["schedule_container"] = cont
+    ctx.cat("T0:schedule-container:" + cont)
+    if cont == "tuple":
+        kw["schedule"] = tuple(kw["schedule"])
+    elif cont == "generator":
+        kw["schedule"] = (0 for _ in range(k))
+    elif cont == "iter":
+        kw["schedule"] = iter([0] * k)
+    elif cont == "ndarray":
+        kw["schedule"] = np.zeros(k)
     ok, res = ctx.call(fn, getattr(L.sim, fn), M, _w=w, **kw)
     if not ok:
         return
